@@ -153,4 +153,20 @@ namespace cs
         SL::state() = &e.leaf[0];
         return named(new RawComp<AnyRef, false>(SL{}), "any_stateless");
     });
+    // a tracker with state around a stateless allocator is stateful: references must reach the user's object
+    using TrSL = fm::tracked_allocator<Tracker, SL>;
+    static CompReg r_sl5("ref_tracked_stateless", [](Env& e) -> Comp* {
+        SL::state() = &e.leaf[0];
+        return tracked(named(new HeldComp<TrSL, fm::allocator_reference<TrSL>, false>(Tracker{&e.track}, SL{}),
+                             "ref_tracked_stateless"));
+    });
+    static CompReg r_sl6("any_tracked_stateless", [](Env& e) -> Comp* {
+        SL::state() = &e.leaf[0];
+        return tracked(named(new HeldComp<TrSL, AnyRef, false>(Tracker{&e.track}, SL{}), "any_tracked_stateless"));
+    });
+    static CompReg r_sl7("ts_tracked_stateless", [](Env& e) -> Comp* {
+        SL::state() = &e.leaf[0];
+        return tracked(named(new RawComp<fm::thread_safe_allocator<TrSL, std::mutex>, false>(TrSL(Tracker{&e.track}, SL{})),
+                             "ts_tracked_stateless"));
+    });
 } // namespace cs
